@@ -342,14 +342,17 @@ pub fn precise_diff<'py>(
                     day_diff += days_in_last_month;
                 }
             }
-            Ordering::Equal => {
-                // We have exactly a full month
+            Ordering::Equal
+                if dtinfo2.day == days_in_month && day_diff == dtinfo2.day - dtinfo1.day =>
+            {
+                // We have exactly a full month (last day of a month
+                // to the last day of the next one, same time or later)
                 // We remove the days difference
                 // and add one to the months difference
                 day_diff = 0;
                 month_diff += 1;
             }
-            Ordering::Greater => {
+            _ => {
                 // We have a full month
                 day_diff += days_in_last_month;
             }
